@@ -12,7 +12,7 @@ IsForeign(ix) == ix.op = "foreign"
 ForeignProg(ix) == IF Has(ix, "program") THEN ix.program ELSE "prog.unknown"
 PreStartOk(ix) == (IsForeign(ix) /\ ForeignProg(ix) = "prog.compute") \/ (ix.op = "init_liq_record" /\ ~IsCpi(ix))
                   \/ (IsForeign(ix) /\ ForeignProg(ix) \in {"prog.kamino", "prog.drift"})
-InsideOk(ix) == (ix.op \in {"withdraw", "repay", "kamino_withdraw"} /\ ~IsCpi(ix)) \/ (IsForeign(ix) /\ ForeignProg(ix) \in AllowedForeign)
+InsideOk(ix) == (ix.op \in {"withdraw", "repay", "kamino_withdraw", "drift_withdraw"} /\ ~IsCpi(ix)) \/ (IsForeign(ix) /\ ForeignProg(ix) \in AllowedForeign)
                 \/ (ix.op = "init_liq_record" /\ ~IsCpi(ix))
 StartOps == {"start_liq", "start_delev"}
 EndOf(op) == IF op = "start_liq" THEN "end_liq" ELSE "end_delev"
